@@ -273,7 +273,7 @@ def _classes():
                     if nm.startswith(pre):
                         root.set_val(nm, case.inputs[nm])
             if case.outputs is not None:
-                for nm in case.outputs.absolute_names():
+                for nm in case.outputs:     # promoted names, the ones Problem.load_case leaves to this system
                     if nm.startswith(pre):
                         root.set_val(nm, case.outputs[nm])
 
